@@ -86,8 +86,14 @@ func (g *GettyRemoting) sendAsync(session getty.Session, msg message.RpcMessage,
 		log.Warn("sendAsyncRequestWithResponse nothing, caused by null channel.")
 		return nil, fmt.Errorf("session is closed")
 	}
-	resp := message.NewMessageFuture(msg)
-	g.futures.Store(msg.ID, resp)
+	// only a message somebody waits for gets a pending future: responses and heartbeats carry
+	// ids chosen elsewhere (the coordinator's request id, the heartbeat counter) and would
+	// otherwise overwrite or shadow the future of one of this client's own requests
+	var resp *message.MessageFuture
+	if callback != nil {
+		resp = message.NewMessageFuture(msg)
+		g.futures.Store(msg.ID, resp)
+	}
 	_, _, err = session.WritePkg(msg, time.Duration(0))
 	if err != nil {
 		g.futures.Delete(msg.ID)
